@@ -63,6 +63,7 @@ type Frame struct {
 	loops    map[*ssa.BasicBlock]*loopInfo
 	blockR   map[*ssa.BasicBlock]string
 	vpath    string          // inlining path (virtual numbering)
+	aliasCache map[string]string
 	curIn    ssa.Instruction // call instruction being executed
 	out      map[*ssa.BasicBlock][]edge // incoming edges per target
 	callOrd  map[ssa.Instruction]string
@@ -180,6 +181,13 @@ func (e *Eng) constVal(c *ssa.Const) Val {
 func (f *Frame) resolveName(name string) (Val, bool) {
 	if v, ok := f.lets[name]; ok {
 		return v, true
+	}
+	if fc := f.fc; fc != nil && fc.Aliases != nil {
+		if a, ok := fc.Aliases[name]; ok {
+			if actual := f.aliasName(name, a); actual != "" {
+				name = actual
+			}
+		}
 	}
 	if f.cfc() != nil {
 		if pt, ok := f.cfc().Binds[name]; ok {
@@ -1763,4 +1771,55 @@ func (f *Frame) cfc() *FuncContract {
 		top = top.parent
 	}
 	return top.fc
+}
+
+// aliasName: the current source name of the local variable that a contract
+// calls `name`: the identifier bound (by a debug reference) to the value
+// passed as the given argument of the given call.
+func (f *Frame) aliasName(name string, a [2]string) string {
+	if f.aliasCache == nil {
+		f.aliasCache = map[string]string{}
+	}
+	if v, ok := f.aliasCache[name]; ok {
+		return v
+	}
+	res := ""
+	var idx int
+	fmt.Sscanf(a[0], "arg%d", &idx)
+	for in, pt := range f.callOrd {
+		if pt != a[1] {
+			continue
+		}
+		var cc *ssa.CallCommon
+		switch x := in.(type) {
+		case *ssa.Call:
+			cc = &x.Call
+		case *ssa.Defer:
+			cc = &x.Call
+		}
+		if cc == nil {
+			break
+		}
+		args := cc.Args
+		if cc.IsInvoke() {
+			args = append([]ssa.Value{cc.Value}, args...)
+		}
+		if idx >= len(args) {
+			break
+		}
+		v := args[idx]
+		for _, b := range f.fn.Blocks {
+			for _, in2 := range b.Instrs {
+				if d, ok := in2.(*ssa.DebugRef); ok && d.X == v && !d.IsAddr {
+					if id, ok := d.Expr.(*ast.Ident); ok {
+						if vv, isVar := d.Object().(*types.Var); isVar && !vv.IsField() {
+							res = id.Name
+						}
+					}
+				}
+			}
+		}
+	}
+	f.aliasCache[name] = res
+	return res
 }
